@@ -172,3 +172,65 @@ class VerifyMixin(object):
         self.covers.append(("%s/cover:hyps" % self.unit, [list(CTX.axioms) + list(st.pc)]))
         for idx, g in enumerate(goals):
             self.oblige(st, "lemma", "G%d" % idx, g, self.spec_bool(g, st), None)
+
+    # ------------------------------------------------------------------------------------------
+    # refinement: an override's contract implies the interface contract its callers rely on
+    # ------------------------------------------------------------------------------------------
+    def verify_refinement(self, over, iface):
+        self.unit = "refines::%s<=%s" % (over.qualname, iface.qualname)
+        self.contract = None
+        self.module = self.repo.module(over.module) if over.module and not over.module.startswith("<") else None
+        extra = [m for m in over.modifies if m not in iface.modifies and m not in over.params]
+        if extra:
+            raise OutsideSubset("%s modifies %s which the interface %s does not allow" % (over.qualname, extra, iface.qualname))
+        if list(over.params.values()) != list(iface.params.values()):
+            raise OutsideSubset("parameter types of %s differ from interface %s" % (over.qualname, iface.qualname))
+        st = State()
+        for name, ty in self.reg.globals.get(over.module, {}).items():
+            v = fresh(ty, "G_" + name)
+            st.assume(*wf(v))
+            st.glob[name] = v
+        args = []
+        for (name, ty), iname in zip(over.params.items(), iface.params):
+            v = fresh(ty, name)
+            st.assume(*wf(v))
+            st.env[iname] = v
+            args.append(v)
+        for text in list(iface.requires) + list(over.assume):
+            st.assume(self.spec_bool(text, st))
+        old = st.copy()
+        old.old = old
+        mark = len(self.raised)
+        n_obl = len(self.obls)
+        outs = self.call_contract(over, args, {}, st.copy(), None)
+        # pre@call obligations of the override under the interface's requires stay: the interface must establish them
+        raised = self.raised[mark:]
+        del self.raised[mark:]
+        self.covers.append(("%s/cover:pre" % self.unit, [list(CTX.axioms) + list(st.pc)]))
+        for ns, res in outs:
+            ns = ns.copy()
+            ns.env = dict(old.env)
+            ns.env["result"] = res
+            ns.old = old
+            for idx, text in enumerate(iface.ensures):
+                self.oblige(ns, "refine-post", "E%d" % idx, text, self.spec_bool(text, ns), None)
+            for ename, cond in iface.raises.items():
+                if cond is not None and not cond.startswith("?"):
+                    self.oblige(ns, "refine-raises-iff", ename, cond, z3.Not(self.spec_bool(cond, old)), None)
+        for rs, exc in raised:
+            rs = rs.copy()
+            rs.env = dict(old.env)
+            rs.env["exc"] = exc
+            rs.old = old
+            alts = []
+            for ename, cond in iface.raises.items():
+                g = self.exc_isinstance(exc, ename)
+                if cond is not None:
+                    g = z3.And(g, self.spec_bool(cond[1:] if cond.startswith("?") else cond, old))
+                alts.append(g)
+            self.oblige(rs, "refine-raises", "allowed", "raises within the interface: %s" % dict(iface.raises),
+                        z3.Or(alts) if alts else z3.BoolVal(False), None)
+            for ename, clauses in iface.ensures_raise.items():
+                for idx, text in enumerate(clauses):
+                    self.oblige(rs, "refine-post-raise", "%s#%d" % (ename, idx), text,
+                                z3.Implies(self.exc_isinstance(exc, ename), self.spec_bool(text, rs)), None)
